@@ -2439,6 +2439,52 @@ pub fn udp_bursts(addr: SocketAddr, rounds: usize, n: usize) -> (u64, u64) {
     (sent, seen)
 }
 
+/// Many slow requests in flight: a server that forwards to an upstream which never
+/// answers receives `n_slow` questions it has to forward (each stays in flight until its
+/// upstream timeouts expire) and then one question its own zone answers.  That one is
+/// owed a prompt reply whatever else is pending.  Ok(None) = held; Ok(Some(text)) =
+/// violation; Err = machinery.
+pub fn slow_upstream_scenario(dir: &Path, n_slow: usize) -> Result<Option<String>, String> {
+    let silent = UdpSocket::bind((Ipv4Addr::LOCALHOST, 0)).map_err(|e| format!("silent upstream: {e}"))?;
+    let silent_addr = silent.local_addr().map_err(|e| format!("silent upstream: {e}"))?;
+    let args = server_args(Mode::Rec, dir, silent_addr);
+    let mut srv = Server::start(&args, &[], "warn")?;
+    let sock = UdpSocket::bind((Ipv4Addr::LOCALHOST, 0)).map_err(|e| e.to_string())?;
+    sock.connect(srv.addr).map_err(|e| e.to_string())?;
+    for i in 0..n_slow {
+        let name = format!("slow{i}.elsewhere.test.");
+        let _ = sock.send(&build_msg(0x3000 + i as u16, FLAG_RD, &[q(&name, 1, 1)], &[], None));
+    }
+    // let the server take them in
+    std::thread::sleep(Duration::from_millis(300));
+    let local = build_msg(0xbeef, 0, &[q("www.c9.test.", 1, 1)], &[], None);
+    let _ = sock.send(&local);
+    let _ = sock.set_read_timeout(Some(Duration::from_millis(200)));
+    let deadline = Instant::now() + Duration::from_millis(SENTINEL_WAIT_MS);
+    let mut buf = [0u8; 1024];
+    let mut answered = false;
+    while Instant::now() < deadline {
+        if let Ok(n) = sock.recv(&mut buf) {
+            if n >= 2 && buf[0] == 0xbe && buf[1] == 0xef {
+                answered = true;
+                break;
+            }
+        }
+    }
+    let verdict = if answered {
+        None
+    } else if !srv.alive() {
+        Some(format!("the server went down with {n_slow} forwarded questions in flight ({})", srv.exit_status()))
+    } else {
+        Some(format!(
+            "with {n_slow} forwarded questions in flight (upstream silent) a question the local zone answers got no reply within {SENTINEL_WAIT_MS} ms"
+        ))
+    };
+    drop(srv);
+    drop(silent);
+    Ok(verdict)
+}
+
 fn alive_and_answering(srv: &mut Server) -> Result<(), String> {
     if !srv.alive() {
         return Err(format!("process gone ({}); log tail {:?}", srv.exit_status(), srv.log.tail(6)));
@@ -2724,6 +2770,27 @@ pub fn run(ctx: &Ctx) -> i32 {
         }
     }
     report.extra.insert("pipelined_bursts".into(), Value::Object(burst_stats));
+    // a local question behind 31 / 32 / 33 / 64 forwarded questions that hang
+    let mut slow_runs = 0u64;
+    for n_slow in [31usize, 32, 33, 64] {
+        match slow_upstream_scenario(&rig.dir.0, n_slow) {
+            Ok(None) => slow_runs += 1,
+            Ok(Some(text)) => {
+                slow_runs += 1;
+                sink.push(Violation {
+                    clause: "no-reply".into(),
+                    summary: format!("[recursive, silent upstream] {text}"),
+                    replay: json!({"mode": Mode::Rec.name(), "transport": "udp", "label": "slow upstream", "slow_upstream": n_slow, "msgs": []}),
+                    slug: None,
+                });
+            }
+            Err(e) => {
+                eprintln!("C09: machinery error: {e}");
+                return 2;
+            }
+        }
+    }
+    report.extra.insert("local_question_behind_hanging_forwarded_questions".into(), json!({"scenarios": slow_runs, "in_flight": [31, 32, 33, 64]}));
 
     // liveness at the end (and the search for the killer if a server went down)
     let mut down: Vec<(Mode, String, Vec<(Transport, Vec<u8>)>)> = Vec::new();
@@ -2841,6 +2908,19 @@ pub fn replay(_ctx: &Ctx, v: &Value) -> i32 {
         for (c, t) in &f {
             println!("  MISMATCH {c}: {t}");
             bad = true;
+        }
+    } else if v["slow_upstream"].is_u64() {
+        let n = v["slow_upstream"].as_u64().unwrap_or(32) as usize;
+        match slow_upstream_scenario(&rig.dir.0, n) {
+            Ok(None) => println!("  the local question was answered with {n} forwarded questions in flight"),
+            Ok(Some(t)) => {
+                println!("  MISMATCH no-reply: {t}");
+                bad = true;
+            }
+            Err(e) => {
+                eprintln!("C09: machinery error: {e}");
+                return 2;
+            }
         }
     } else if v["bursts"].is_object() {
         let rounds = v["bursts"]["rounds"].as_u64().unwrap_or(3) as usize;
